@@ -5,6 +5,7 @@ import (
 	"go/constant"
 	"go/token"
 	"go/types"
+	"regexp"
 
 	"golang.org/x/tools/go/ssa"
 )
@@ -367,4 +368,46 @@ func IsCallValue(keys ...string) func(ssa.Value) bool {
 		c, ok := v.(*ssa.Call)
 		return ok && IsCallTo(c, keys...)
 	}
+}
+
+// CutAtoms removes, for every If whose normalised condition atom matches re, the edge taken when
+// the atom has the truth value atomVal. It returns the cut set and the atoms matched.
+// Matching on canonical atoms makes the cut independent of helper inlining and of how the
+// comparison is spelled.
+func CutAtoms(p *Program, fn *ssa.Function, re *regexp.Regexp, atomVal bool) (EdgeSet, []string) {
+	cut := EdgeSet{}
+	var matched []string
+	c := NewCanon(p)
+	for _, b := range fn.Blocks {
+		if len(b.Instrs) == 0 {
+			continue
+		}
+		ifi, ok := b.Instrs[len(b.Instrs)-1].(*ssa.If)
+		if !ok {
+			continue
+		}
+		atom, whenTrue := c.CondAtom(ifi.Cond)
+		if !re.MatchString(atom) {
+			continue
+		}
+		matched = append(matched, atom)
+		// cond true => atom == whenTrue
+		if whenTrue == atomVal {
+			cut[Edge{b, 0}] = true
+		} else {
+			cut[Edge{b, 1}] = true
+		}
+	}
+	return cut, matched
+}
+
+// Union merges edge sets.
+func Union(sets ...EdgeSet) EdgeSet {
+	out := EdgeSet{}
+	for _, s := range sets {
+		for e := range s {
+			out[e] = true
+		}
+	}
+	return out
 }
